@@ -35,6 +35,7 @@ def execute(program, schedule, prefix="p"):
     """Run one schedule; returns the list of outcome records of its op events."""
     ncat_t = len(CAT_TYPES) if program.get("catalogue") else 0
     types = {}
+    ns = {}     # one namespace dict shared by all functional declarations of the program
     units = {}
     if program.get("catalogue"):
         for i, t in enumerate(CAT_TYPES):
@@ -90,7 +91,7 @@ def execute(program, schedule, prefix="p"):
                         kw["define_as"] = defn
                     if d["_has_ref"] and d.get("refsym"):
                         kw.update(ref_unit_symbol=f"{prefix}u{unum[k]}", ref_unit_name=f"ref of {name}")
-                cls = QuantityMeta(name, (Quantity,), {}, **kw)
+                cls = QuantityMeta(name, (Quantity,), ns, **kw)
                 types[ti] = cls
                 if d["_has_ref"]:
                     units[unum[k]] = cls.ref_unit
